@@ -188,6 +188,11 @@ def check_invocations(obs, ro, ref, prog, lazy_guard=None):
                 props = ['C03']
                 if prog['nodes'][node].get('start_of') or _in_any_sub(ref, node):
                     props.append('C11')
+                if kind == 'wrong_arg_names':
+                    swp = {p for p, mk in prog['nodes'][node].get('params', []) if mk[0] == 'sw'}
+                    expn = set(exp_nodes[node][0].kwargs)
+                    if swp & (expn ^ got):
+                        props.append('C09')      # a SwitchCase parameter was not supplied / re-targeted
                 wc = _wrong_case(prog, node, rec['kwargs'], exp_nodes[node])
                 if wc:
                     out.append(F(['C09', 'C03'], 'wrong_case_routed', node=node, param=wc[0], got_case=wc[1],
